@@ -287,11 +287,20 @@ def run_case(desc, ctx):
     elif g == "surface":
         z = surfaces.make(rng.randrange(2 ** 31), max_size=6)
         V, F, cls = z["V"], z["F"], "surface"
+        if desc["seed"] % 2 == 0:
+            # faces in any order (the faces of two components interleaved, as after a merge followed by a sort, or in a triangle soup)
+            F = [list(f) for f in F]
+            random.Random(desc["seed"] ^ 0xface).shuffle(F)
+            ctx.cls("surface:face_order_shuffled")
         ok, m = ctx.call("build", build.surface, V, F, monitor="tree")
         E = topo.edges_of(F)
     else:
         z = volumes.make(rng.randrange(2 ** 31), max_size=2)
         V, C, cls = z["V"], z["C"], "volume"
+        if desc["seed"] % 2 == 0:
+            C = [list(c) for c in C]
+            random.Random(desc["seed"] ^ 0xce11).shuffle(C)
+            ctx.cls("volume:cell_order_shuffled")
         ok, m = ctx.call("build", build.volume, V, C, monitor="tree")
         E = RefVolume(len(V), C).edges
     n = len(V)
@@ -370,7 +379,7 @@ def run_case(desc, ctx):
 
     # ---------------- minimal spanning tree
     for rep in range(2):
-        mode = ["one", "length", "dict", "attr", "dict_ties", "dict_zero_or_small", "attr_partly_unset"][(desc["seed"] + rep) % 7]
+        mode = ["one", "length", "dict", "attr", "dict_ties", "dict_zero_or_small", "attr_partly_unset", "dict_with_infinite_costs"][(desc["seed"] + rep) % 8]
         salt = rng.randrange(2 ** 31)
 
         def w(e):
@@ -379,6 +388,9 @@ def run_case(desc, ctx):
             if mode == "length":
                 return float(np.linalg.norm(np.asarray(V[e[0]], float) - np.asarray(V[e[1]], float)))
             r = random.Random((e[0] * 1000003 + e[1]) ^ salt)
+            if mode == "dict_with_infinite_costs":
+                # some edges are "never to be taken unless there is no other way" (cost inf): still admissible, a bridge among them must be taken
+                return float("inf") if r.random() < 0.3 else r.uniform(0.1, 5)
             if mode in ("dict_zero_or_small", "attr_partly_unset"):
                 # free edges (cost exactly 0: a 0/1 cost, or an entry of a sparse attribute that was never written) next to costs below 1
                 return 0.0 if r.random() < 0.35 else r.choice([0.25, 0.5, 1.0, r.uniform(0.05, 0.95)])
@@ -450,7 +462,10 @@ def run_case(desc, ctx):
                 par2[ra] = rb
                 wref += w(e)
         wgot = sum(w(e) for e in tedges)
-        if abs(wgot - wref) > 1e-9 * max(1.0, wref):
+        if math.isinf(wref):
+            # an infinitely expensive edge is unavoidable: every spanning forest weighs inf, the spanning clauses above are what is judged
+            ctx.note("mst_weight_not_compared(infinite_cost_unavoidable)")
+        elif abs(wgot - wref) > 1e-9 * max(1.0, wref):
             ctx.violation("mst", mode, "not_minimum_weight", "total MST weight is not the minimum", got=wgot, want=wref)
             continue
         # orientation of the root's component
